@@ -84,13 +84,13 @@ def main(argv):
     if argv[0] == "--replay":
         return replay(argv[1])
     if argv[0] == "--dev-kani":      # development aid: run every harness of one /verif/kani/<file>.rs (optionally filtered by substring)
-        hs = [h for h in kani_run.load_registry() if (h.file == argv[1] or argv[1] == "ALL" or (argv[1] == "QUICK" and h.tier == "quick")) and (len(argv) < 3 or argv[2] in h.full)]
+        hs = [h for h in kani_run.load_registry() if (h.file == argv[1] or argv[1] == "ALL" or (argv[1] == "QUICK" and h.tier == "quick")) and (len(argv) < 3 or argv[2] in h.full) and (os.environ.get("DEV_TIER") in (None, h.tier))]
         res, raw, cmd, wall = kani_run.run_batch(hs)
         write(os.path.join(CACHE, "logs", "dev-kani.log"), raw)
         bad = 0
         for h in hs:
             r = res[h.full]
-            print(f"{r['status']:8} {r['time_s']:7.1f}s checks={r['checks']:5} covers={r['covers']} {h.full.split('verif_hooks::proofs::')[1]}")
+            print(f"{r['status']:8}{'*' if r.get('cached') else ' '}{r['time_s']:7.1f}s checks={r['checks']:5} covers={r['covers']} {h.full.split('verif_hooks::proofs::')[1]}")
             for fc in r["failed_checks"]:
                 print("      FAILED:", fc["description"], fc.get("file", ""), fc.get("line", ""))
             bad += r["status"] != "success"
